@@ -65,7 +65,7 @@ def deco(arr):
     return arr
 
 
-def catalogue(da, a, b, t, sq, v, ds, tmpdir, cn, extra=None, lab3=None, jd=None):
+def catalogue(da, a, b, t, sq, v, ds, tmpdir, cn, extra=None, lab3=None, jd=None, cg=None):
     x, y, z = a.dims
     ya = a.axes[y].values
     y0 = ya[0]
@@ -139,6 +139,15 @@ def catalogue(da, a, b, t, sq, v, ds, tmpdir, cn, extra=None, lab3=None, jd=None
         'commaname-reshape-drop-refused': lambda: cn.reshape(y, z), 'commaname-regroup': lambda: cn.flatten((y, z)).reshape(z, cx, y),
         'commaname-transpose': lambda: cn.transpose(z, y, cx), 'commaname-mean': lambda: cn.mean(axis=cx), 'commaname-add': lambda: cn + cn.mean(axis=y),
     })
+    if cg is not None:
+        # ... and the same array with its other dimensions grouped (a grouped axis next to the plain comma-named one)
+        w9 = da.DimArray([1., 10.], axes=[('member9', ['m2', 'm1'])])
+        ops.update({
+            'commagrouped-mul-newdim': lambda: cg * w9, 'commagrouped-rmul-newdim': lambda: w9 * cg,
+            'commagrouped-reshape-newdim': lambda: cg.reshape(y, z, cx, 'nn'), 'commagrouped-reshape-ungroup': lambda: cg.reshape(cx, y, z),
+            'commagrouped-reshape-refused': lambda: cg.reshape(y, cx, z, transpose=False), 'commagrouped-unflatten': lambda: cg.unflatten(),
+            'commagrouped-mean': lambda: cg.mean(axis=0), 'commagrouped-T': lambda: cg.T, 'commagrouped-align_dims': lambda: da.broadcast_arrays(cg, w9),
+        })
     # rarely used call forms
     ops.update({
         'ds-reduce_axis-direct': lambda: ds.reduce_axis(np.sum, axis=z), 'ds-reduce_axis-keepdims': lambda: ds.reduce_axis(np.cumsum, axis=y, keepdims=True),
@@ -191,8 +200,9 @@ def check(case, ctx):
         rhs3 = np.arange(float(a.shape[0] * a.shape[2])).reshape(a.shape[0], a.shape[2])
         lab3 = np.array(a.axes[y].values[::-1], copy=True)
         jd = a.to_jsondict()
-        ops = catalogue(da, a, b, t, sq, v, ds, tmpdir, cn, extra=(negp, mask3, rhs3), lab3=lab3, jd=jd)
-        watched = (a, b, t, sq, v, ds, cn, negp, mask3, rhs3, lab3, jd)
+        cg = cn.flatten((cn.dims[1], cn.dims[2]))
+        ops = catalogue(da, a, b, t, sq, v, ds, tmpdir, cn, extra=(negp, mask3, rhs3), lab3=lab3, jd=jd, cg=cg)
+        watched = (a, b, t, sq, v, ds, cn, negp, mask3, rhs3, lab3, jd, cg)
         names = list(ops)
         classes = []
         for name in names:
